@@ -33,6 +33,7 @@ type sysRun struct {
 	sym     byte // a symbolic payload byte shared by all messages (content fidelity)
 	symT    byte // a symbolic topic byte
 	connErr error
+	presetIDs bool
 }
 
 func (s *sysRun) submit(r *sysReq) {
@@ -40,7 +41,11 @@ func (s *sysRun) submit(r *sysReq) {
 	var err error
 	switch r.kind {
 	case rkPub0, rkPub1, rkPub2:
-		err = s.cli.Publish(ctx, &Message{Topic: string([]byte{'t', s.symT}), QoS: QoS(r.kind), Retain: r.tag%2 == 1, Payload: []byte{byte(r.tag), s.sym}})
+		m := &Message{Topic: string([]byte{'t', s.symT}), QoS: QoS(r.kind), Retain: r.tag%2 == 1, Payload: []byte{byte(r.tag), s.sym}}
+		if s.presetIDs {
+			m.ID = uint16(0x4000 + r.tag) // the caller's own identifier
+		}
+		err = s.cli.Publish(ctx, m)
 	case rkSub:
 		_, err = s.cli.Subscribe(ctx, Subscription{Topic: string([]byte{'s', byte(r.tag)}), QoS: QoS1})
 	case rkUnsub:
@@ -316,10 +321,23 @@ func (s *sysRun) checkC12() {
 	}
 }
 
+// C15: an identifier the caller put on a message is used unchanged, on every transmission.
+func (s *sysRun) checkC15() {
+	verifLock()
+	defer verifUnlock()
+	for _, at := range s.b.attempts {
+		if at.p.typ == 3 && at.p.flags&0x06 != 0 && at.tag > 0 {
+			verifReach("publish-with-preset-id")
+			verifAssert(at.p.id == uint16(0x4000+at.tag), "C15.caller_supplied_id_used_unchanged")
+		}
+	}
+}
+
 func sysScenario(kinds []int, which string) {
 	nreq := verifParam("nreq", 2)
 	budget := verifParam("faults", 1)
 	s := sysStart(kinds, nreq, budget)
+	s.presetIDs = which == "C15"
 	verifOnQuiescence(func() {
 		verifReach("quiescent")
 		if s.connErr != nil {
@@ -335,6 +353,9 @@ func sysScenario(kinds []int, which string) {
 			s.checkC03()
 		case "C12":
 			s.checkC12()
+		case "C15":
+			s.checkC15()
+			s.checkC01()
 		}
 	})
 	s.run()
@@ -344,3 +365,4 @@ func VerifH_SYS_C01() { sysScenario([]int{rkPub1, rkPub2, rkSub, rkUnsub}, "C01"
 func VerifH_SYS_C02() { sysScenario([]int{rkPub2, rkPub1}, "C02") }
 func VerifH_SYS_C03() { sysScenario([]int{rkPub0, rkPub1, rkPub2, rkSub}, "C03") }
 func VerifH_SYS_C12() { sysScenario([]int{rkPub0, rkPub1, rkPub2}, "C12") }
+func VerifH_SYS_C15() { sysScenario([]int{rkPub1, rkPub2}, "C15") }
